@@ -22,18 +22,18 @@ type Ctx struct {
 	cur  string // current rule id
 	wp   *whole // lazily built whole-program facts (call graph etc.)
 
-	lf        *lockFacts
-	cg        *callGraph
-	cgGo      []goSite
-	isModFn   map[*ssa.Function]bool
-	byObj     map[*types.Func]*ssa.Function
-	implCache map[*types.Func][]*ssa.Function
+	lf         *lockFacts
+	cg         *callGraph
+	cgGo       []goSite
+	isModFn    map[*ssa.Function]bool
+	byObj      map[*types.Func]*ssa.Function
+	implCache  map[*types.Func][]*ssa.Function
 	roots      map[*ssa.Function]string
 	reachCache map[*ssa.Function]map[*ssa.Function]bool
-	lres      map[*ssa.Function]*lockResult
-	lentry    map[*ssa.Function]map[lockKey]string
-	silent    bool // engines evaluate without recording (wrapper summaries)
-	wrapCache map[string][]wrapper
+	lres       map[*ssa.Function]*lockResult
+	lentry     map[*ssa.Function]map[lockKey]string
+	silent     bool // engines evaluate without recording (wrapper summaries)
+	wrapCache  map[string][]wrapper
 }
 
 // Prop is one property's rule table.
